@@ -125,7 +125,7 @@ fn install_crash_handlers() {
             libc::SIGFPE,
         ] {
             let mut sa: libc::sigaction = std::mem::zeroed();
-            sa.sa_sigaction = crash_handler as usize;
+            sa.sa_sigaction = crash_handler as *const () as usize;
             sa.sa_flags = libc::SA_ONSTACK | libc::SA_NODEFER;
             libc::sigemptyset(&mut sa.sa_mask);
             libc::sigaction(sig, &sa, std::ptr::null_mut());
